@@ -11,6 +11,8 @@ pub const OWNER: &str = "owner";
 pub const COLLECTOR: &str = "collector";
 pub const USERS: [&str; 4] = ["alice", "bob", "carol", "donor"];
 pub const DENOMS: [&str; 4] = ["uwhale", "uusdc", "uatom", "ubtc"];
+/// a token-factory style native denom (same bank semantics, different label / burn handling paths in the contracts)
+pub const FACTORY_DENOM: &str = "factory/migaloo1creatoraddressxyz/ufab";
 pub const RICH: u128 = u128::MAX / 4;
 
 pub fn token_contract() -> Box<dyn Contract<Empty>> {
@@ -61,7 +63,9 @@ pub fn new_app() -> App {
     let bank = BankKeeper::new();
     AppBuilder::new().with_bank(bank).build(|router, _api, storage| {
         for a in funded_accounts() {
-            let coins: Vec<Coin> = DENOMS.iter().map(|d| coin(RICH, *d)).collect();
+            let mut coins: Vec<Coin> = DENOMS.iter().map(|d| coin(RICH, *d)).collect();
+            coins.push(coin(RICH, FACTORY_DENOM));
+            coins.sort_by(|a, b| a.denom.cmp(&b.denom));
             router.bank.init_balance(storage, &Addr::unchecked(a), coins).unwrap();
         }
     })
@@ -119,6 +123,10 @@ pub struct PairWorld {
 
 /// kinds: false = native, true = cw20
 pub fn deploy_pair(kinds: [bool; 2], decimals: [u8; 2], fees: PoolFee, pair_type: PairType) -> Result<PairWorld, String> {
+    deploy_pair_ext(kinds, decimals, fees, pair_type, false)
+}
+/// `fab`: a native second asset uses the token-factory style denom
+pub fn deploy_pair_ext(kinds: [bool; 2], decimals: [u8; 2], fees: PoolFee, pair_type: PairType, fab: bool) -> Result<PairWorld, String> {
     let mut app = new_app();
     let token_code = app.store_code(token_contract());
     let cw20_code = app.store_code(cw20_base_contract());
@@ -129,7 +137,7 @@ pub fn deploy_pair(kinds: [bool; 2], decimals: [u8; 2], fees: PoolFee, pair_type
             let a = deploy_cw20(&mut app, cw20_code, if i == 0 { "TOKA" } else { "TOKB" }, decimals[i]);
             infos.push(token(&a));
         } else {
-            infos.push(native(DENOMS[i]));
+            infos.push(native(if fab && i == 1 { FACTORY_DENOM } else { DENOMS[i] }));
         }
     }
     let assets = [infos[0].clone(), infos[1].clone()];
